@@ -229,8 +229,11 @@ def fl3(i):
         return -INF
 
 
+HUGE = 10 ** 400
+
+
 def cint(i):
-    """Concretise an int payload into 4 classes (for targets whose constructor does float arithmetic on it:
+    """Concretise an int payload into 5 classes (for targets whose constructor does float arithmetic on it:
     CrossHair never reports 'Confirmed' for a path through float(symbolic int) -- measured)."""
     if i <= -1:
         return -1
@@ -238,6 +241,8 @@ def cint(i):
         return 0
     elif i == 1:
         return 1
+    elif i >= 1000:
+        return HUGE         # an int that float()/complex() cannot represent (OverflowError inside the target constructor)
     else:
         return 7
 
